@@ -4,7 +4,7 @@ import json, subprocess
 hooks_commit = "76a60ed"
 claimed = {
  # id: (engine, level, design_ref, technique, text, note)
- "C01": ("E1 simbroker/route", "exploration", "5 C01", "deterministic whole-broker simulation (synctest fake clock, simulated connections/gossip/RPC, seeded scenarios), reference MQTT matcher as oracle, ddmin replay files",
+ "C01": ("E1 simbroker/route + route-live", "exploration", "5 C01", "deterministic whole-broker simulation (synctest fake clock, simulated connections/gossip/RPC, seeded scenarios), reference MQTT matcher as oracle; second variant judges publishes issued while subscription gossip is in flight against the LWW fold of what the publishing node has been handed; ddmin replay files",
          "Seeded search over subscribe/unsubscribe/re-subscribe histories and publish bursts on 1-3 simulated nodes with gossip loss/duplication/delay; every (publish, session) pair is judged against an independent MQTT 3.1.1 matcher, so wrong matches, missed '#'/'+' cases, order dependence and pruning errors surface as copy-count mismatches. Sampling with a coverage count, not exhaustive enumeration.",
          "Trusts the harness's own MQTT codec and matcher, the synctest fake clock, the maporder instrumentation (map ranges iterate in simulator order) and the stubs listed in the evidence file; goroutine order inside one step is left to the Go runtime (canonical determinism, see DESIGN 2.1)."),
  "C02": ("E1 simbroker/pipeline", "exploration", "5 C02", "deterministic whole-broker simulation with pre-filled real commit log on tmpfs, seeded publish sequences crossing segment and truncation boundaries, at-least-once oracle over acknowledged publishes",
@@ -16,7 +16,7 @@ claimed = {
  "C06": ("E2 idpool + E3 lockstep (-race)", "exploration", "5 C06", "sequential simulation of the real allocator against a set model with a final drain, plus PRNG-scheduled concurrent tasks under the race detector with a porcupine set model (lockstep engine)",
          "Allocate/release histories (including releases of free, unknown, out-of-range ids and release-first) on small ranges and on 0..65535; a final drain must hand out exactly the free identifiers once each.",
          "Values outside [min,max] returned by Get are taken as the exhaustion report."),
- "C08": ("E2 repl/converge", "exploration", "5 C08", "sequential multi-replica simulation of the real distributed.State with per-node offset clocks; seeded permutation/duplication/batching of captured broadcasts; reference LWW fold as oracle",
+ "C08": ("E2 repl/converge + E3 lockstep (-race)", "exploration", "5 C08", "sequential multi-replica simulation of the real distributed.State with per-node offset clocks; seeded permutation/duplication/batching of captured broadcasts; reference LWW fold as oracle; plus concurrent delivery of competing updates by PRNG-scheduled tasks under the race detector (lockstep engine)",
          "Updates produced by real mutators on 1-3 origin replicas with clock offsets are delivered to 2-3 fresh replicas under independent plans (permuted, duplicated, batched, via NotifyMsg or MergeRemoteState); all receivers must equal the LWW fold of the update set.",
          "Timestamps are unique across nodes (ties not generated); broadcasts are the real protobuf bytes."),
  "C09": ("E2 repl/bcast", "exploration", "5 C09", "sequential two-replica simulation: every mutator on A followed by draining A's real broadcast queue into B; listing equality and broadcast-key coverage as oracles",
